@@ -25,6 +25,9 @@ func Compile(root *Module) error {
 type compiler struct {
 	root *Module
 	pool map[HasDefinitions]struct{}
+
+	// typedefs whose own type is being resolved, to detect circular chains
+	typedefsInProgress map[*Typedef]struct{}
 }
 
 func (c *compiler) module(y *Module) error {
@@ -399,7 +402,16 @@ func (c *compiler) findTypedef(y *Type, parent Definition, qualifiedIdent string
 	}
 
 	// this will recurse if typedef references another typedef
-	if err := c.compile(found); err != nil {
+	if _, circular := c.typedefsInProgress[found]; circular {
+		return nil, errors.New(SchemaPath(parent) + " - typedef " + y.ident + " refers to itself")
+	}
+	if c.typedefsInProgress == nil {
+		c.typedefsInProgress = make(map[*Typedef]struct{})
+	}
+	c.typedefsInProgress[found] = struct{}{}
+	err := c.compile(found)
+	delete(c.typedefsInProgress, found)
+	if err != nil {
 		return nil, err
 	}
 
